@@ -24,6 +24,57 @@ def _pairs(base_steps_fn, total: int, tier: str, rng: random.Random, span: Optio
     return variants
 
 
+def gen_ws_early(tier: str, rng: random.Random) -> Iterator[Dict[str, Any]]:
+    """A first WebSocket message written right behind the handshake, before the 101 (the split decides whether
+    the server sees it before or after it accepted; either it refuses the connection or every message
+    arrives - executions are judged one by one, not compared)."""
+    from .common import tpat
+    from .wsclient import OP, frame
+    prog2 = [["recv"], ["send", {"type": "websocket.accept"}], ["recv"], ["recv"],
+             ["send", {"type": "websocket.send", "pat": [5, 0, 3]}], ["recv_disc"]]
+    early = frame(OP["text"], tpat(3, 0, 4).encode())
+    probe = base_script([build.ws_h1_request(1)], {"*": prog2}, fam="")
+    hs_len = stream_len(probe)
+    cuts = [None, hs_len, 1, hs_len - 1, hs_len + 1, hs_len + len(early) - 1, hs_len // 2]
+    if tier != "quick":
+        cuts += [c for c in range(2, hs_len + len(early)) if c not in cuts]
+    for late in (True, False):
+        for c in cuts:
+            sc = base_script([build.ws_h1_request(1)], {"*": prog2},
+                             fam="c13/ws-early/%s/%s" % ("then-second" if late else "alone",
+                                                         "unsplit" if c is None else "at-boundary" if c == hs_len else "split"))
+            sc["opening"] = "ws"
+            sc["stream"].append({"hex": early.hex()})
+            total = hs_len + len(early)
+            sc["early_ws"] = {"rid": "1", "pid": 3, "len": 4, "end": total}
+            st = [{"s": "send", "upto": c}] if c else []
+            st += [{"s": "send", "upto": total}, {"s": "dt", "d": 0.01}]
+            if late:
+                st += [{"s": "ws?", "op": "text", "pid": 4, "len": 5}, {"s": "dt", "d": 0.05}]
+            sc["steps"] = st
+            yield sc
+
+
+def gen_h2c_odd_settings(tier: str, rng: random.Random) -> Iterator[Dict[str, Any]]:
+    """h2c upgrade offers whose HTTP2-Settings value is not what RFC 7540 3.2.1 asks for: octets that are not
+    UTF-8, not base64url, base64url of something that is not a SETTINGS payload, two such headers.  Client
+    input like any other: refused or served, never an internal error."""
+    resp = build.simple_resp_program(chunks=[3])
+    odd = [("not-utf8", ["\xff\xfe\xfd"]), ("not-base64", ["!!!!"]), ("bad-length", ["AAMAAABk"[:7]]),
+           ("not-a-settings-payload", ["AAAA"]), ("twice", ["AAMAAABkAAQAAP__", "AAMAAABk"]), ("padded", ["AAMAAABkAAQAAP__=="]),
+           ("huge", ["AAMAAABk" * 200])]
+    for name, values in odd:
+        for follow in (False, True):
+            hdrs = [["Host", "hypercorn"], ["Connection", "Upgrade, HTTP2-Settings"], ["Upgrade", "h2c"]]
+            hdrs += [["HTTP2-Settings", v] for v in values]
+            rq = {"rid": 1, "method": "GET", "target": "/h2c-odd", "version": "1.1", "kind": "http", "upgrade": "h2c", "headers": hdrs}
+            sc = base_script([rq], {"*": resp}, fam="c04/h2c-odd-settings/%s/%s" % (name, "then-close" if not follow else "then-eof"))
+            sc["unusual"] = "h2c-odd-settings"
+            total = stream_len(sc)
+            sc["steps"] = [{"s": "send", "upto": total}, {"s": "dt", "d": 0.05}] + ([{"s": "eof"}] if follow else [])
+            yield sc
+
+
 def gen_c13(tier: str, rng: random.Random) -> Iterator[Dict[str, Any]]:
     resp = build.simple_resp_program(chunks=[3, 4])
     # ---- plain HTTP/1 (with and without TLS / ALPN http/1.1) -------------------------------
@@ -78,19 +129,22 @@ def gen_c13(tier: str, rng: random.Random) -> Iterator[Dict[str, Any]]:
             return st + [{"s": "send", "upto": total}, {"s": "dt", "d": 0.05}]
         sc["variants"] = _pairs(steps, total, tier, rng)
         yield sc
-    # ---- WebSocket upgrade followed by a message in the same read ----------------------------------
+    # ---- WebSocket upgrade followed by a message (Connection is a list: the token may stand anywhere in it,
+    #      with optional whitespace around the commas) ---------------------------------------------------------
     prog = [["recv"], ["send", {"type": "websocket.accept"}], ["recv"], ["send", {"type": "websocket.send", "pat": [5, 0, 3]}],
             ["recv_disc"]]
-    rq = build.ws_h1_request(1)
-    sc = base_script([rq], {"*": prog}, fam="c13/ws")
-    sc["opening"] = "ws"
-    total = stream_len(sc)
-    def steps(c, total=total):
-        st = [{"s": "send", "upto": c}] if c else []
-        return st + [{"s": "send", "upto": total}, {"s": "dt", "d": 0.01}, {"s": "ws", "op": "text", "pid": 3, "len": 4},
-                     {"s": "dt", "d": 0.05}]
-    sc["variants"] = _pairs(steps, total, tier, rng)
-    yield sc
+    for ci, connection in enumerate(("Upgrade", "keep-alive, Upgrade", "keep-alive ,\tupgrade", "Upgrade,keep-alive")):
+        rq = build.ws_h1_request(1, connection=connection)
+        sc = base_script([rq], {"*": prog}, fam="c13/ws/connection-%d" % ci)
+        sc["opening"] = "ws"
+        total = stream_len(sc)
+        def steps(c, total=total):
+            st = [{"s": "send", "upto": c}] if c else []
+            return st + [{"s": "send", "upto": total}, {"s": "dt", "d": 0.01}, {"s": "ws?", "op": "text", "pid": 3, "len": 4},
+                         {"s": "dt", "d": 0.05}]
+        sc["variants"] = _pairs(steps, total, tier if ci == 0 else "quick", rng)
+        yield sc
+    yield from gen_ws_early(tier, rng)
     # ---- HTTP/2: ALPN h2 and cleartext prior knowledge, preface + SETTINGS + HEADERS split anywhere ---
     for carrier, opening in (("h2", "alpn-h2"), ("h2prior", "preface")):
         scheme = "https" if carrier == "h2" else "http"
